@@ -915,3 +915,12 @@ Example fuel_matters :
   /\ decode_with BER 5 (Some (TChoice [TChoice [TChoice [TOcts]]])) [36;128;4;0;0;0] = Err EOutOfFuel
   /\ (exists d, decode BER (Some (TChoice [TChoice [TChoice [TOcts]]])) [36;128;4;0;0;0] = Ok (d, [])).
 Proof. repeat split; try (eexists; vm_compute; reflexivity); vm_compute; reflexivity. Qed.
+
+(* the one place where the position moves backwards - an untagged ANY as alternative of an untagged CHOICE,
+   re-entered after the header, re-reads the element from the marked position - is covered by the
+   potential argument ([call_post] on re-entry); the run: *)
+Example choice_any_rereads_header :
+  decode BER (Some (TChoice [TAny])) [4;1;9;7] = Ok (DV (TChoice [TAny]) (VChoice 0 (VAny [4;1;9])), [7])
+  /\ decode BER (Some (TChoice [TChoice [TInt; TAny]])) [4;1;9]
+     = Ok (DV (TChoice [TChoice [TInt; TAny]]) (VChoice 0 (VAny [4;1;9])), []).
+Proof. split; vm_compute; reflexivity. Qed.
